@@ -255,6 +255,8 @@ void ezc3d::ParametersNS::Parameters::write(std::fstream &f) const
     int nBlocksToNext = int(actualPos - pos-2)/512;
     if (int(actualPos - pos-2) % 512 > 0)
         ++nBlocksToNext;
+    if (nBlocksToNext > 255)
+        throw std::range_error("The parameters take more than 255 blocks, which is too large for a c3d file");
     f.write(reinterpret_cast<const char*>(&nBlocksToNext), ezc3d::BYTE);
     f.seekg(actualPos);
 
